@@ -689,7 +689,7 @@ class FingerprintDatabase(object):
         """Get list of fingerprints with name."""
         if isinstance(key, str):
             try:
-                indices = self.fp_names_to_indices[key]
+                indices = self.fp_names_to_indices.get(key, [])
             except AttributeError:
                 raise KeyError(
                     "fingerprint named {} is not in the database".format(key)
